@@ -1,6 +1,7 @@
 """C07 — interconnect(): correspondence between `control.interconnect` (spec parsing, the
-pre-processing loops, InterconnectedSystem.__init__, _compute_static_io, LinearICSystem) and the
-Lean model `CtrlVerif.Model.Interconnect` (driver family `ic`).
+pre-processing loops, InterconnectedSystem.__init__, _compute_static_io, LinearICSystem), the
+operator forms on I/O systems (NonlinearIOSystem.__add__ … feedback) and the Lean model
+`CtrlVerif.Model.Interconnect` (driver family `ic`).
 
 A case = a set of subsystems + one or two *spellings* of the same wiring (or one malformed call).
 Each spelling is one call of `interconnect`; it is tokenised here with the same regular
@@ -221,6 +222,8 @@ def sys_toks(s):
 
 
 def call_line(systems, call):
+    if "op" in call:
+        return " ".join(("ic op " + op_toks(systems, call["op"])[0]).split())
     parts = ["ic %d" % len(systems)]
     parts.extend(sys_toks(s) for s in systems)
     parts.append(conns_toks(dec(call.get("connections"))))
@@ -228,6 +231,139 @@ def call_line(systems, call):
     parts.append(iolist_toks(dec(call.get("outlist")), dec(call.get("outputs"))))
     parts.append("1" if call.get("add_unused") else "0")
     return " ".join(" ".join(parts).split())
+
+
+# ----------------------------------------------------------------------------
+# operator forms on I/O systems: expression trees
+#   {"o": "sys", "i": k} | {"o": "num", "v": "p/q"} | {"o": "arr", "M": [[..]]}
+#   {"o": "add"|"sub"|"mul"|"div", "a": T, "b": T} | {"o": "neg", "a": T}
+#   {"o": "fb", "a": T, "b": T, "sign": "p/q"}
+# `op_toks` mirrors Python's dispatch (which operand's method runs, what a number / array is
+# converted to) and emits the model expression; `op_eval` runs the real operators.
+# ----------------------------------------------------------------------------
+
+def neg_leaf(s):
+    """`-sys` for a StateSpace leaf: StateSpace(A, B, -C, -D) (StateSpace.__neg__; property C02)"""
+    s2 = dict(s)
+    s2["C"] = [[str(-Fraction(x)) for x in r] for r in s["C"]]
+    s2["D"] = [[str(-Fraction(x)) for x in r] for r in s["D"]]
+    return s2
+
+
+def op_toks(systems, t):
+    """-> (driver tokens, kind); kind: nl (a NonlinearIOSystem leaf) | ic (the InterconnectedSystem
+    an operator returned) | ss (a StateSpace leaf) | num | arr.
+
+    Python's binary-operator protocol, as it applies to these classes: `a + b` calls
+    `a.__add__(b)`, and `b.__radd__(a)` when that returns NotImplemented — but the reflected
+    method goes FIRST when type(b) is a proper subclass of type(a) that overrides it: StateSpace
+    derives from NonlinearIOSystem and overrides __radd__/__rsub__/__rmul__, InterconnectedSystem
+    derives from it without overriding them.  StateSpace.__add__/__mul__ return NotImplemented for
+    a non-StateSpace system, __sub__ is `self + (-other)`, __rsub__ is `other + (-self)`, __radd__
+    is `self + other`, __rmul__ returns NotImplemented for a non-StateSpace system."""
+    o = t["o"]
+    if o == "sys":
+        s = systems[t["i"]]
+        return "s " + sys_toks(s), ("nl" if s.get("nl") else "ss")
+    if o == "num":
+        return "k 1 1 " + tok(Fraction(t["v"])), "num"
+    if o == "arr":
+        M = t["M"]
+        return "k %d %d %s" % (len(M), len(M[0]), mat_toks(M)), "arr"
+    ta, ka = op_toks(systems, t["a"])
+    if o == "neg":
+        if ka not in ("nl", "ic"):
+            raise Untokenisable("neg of " + ka)
+        return "neg " + ta, "ic"
+    if o == "div":
+        if ka not in ("nl", "ic") or t["b"]["o"] != "num":
+            raise Untokenisable("div")
+        # `self * (1 / other)` in floating point
+        return "mul %s k 1 1 %s" % (ta, tok(fr(1 / num_value(t["b"]["v"])))), "ic"
+    tb, kb = op_toks(systems, t["b"])
+    if ka not in ("nl", "ic") and kb not in ("nl", "ic"):
+        raise Untokenisable("no nonlinear operand")      # StateSpace algebra: property C02
+    if o == "mul":
+        return "mul %s %s" % (ta, tb), "ic"
+    if o == "add":
+        if ka == "nl" and kb == "ss":                     # ss.__radd__(nl) -> ss + nl -> nl.__radd__(ss)
+            return "add %s %s" % (tb, ta), "ic"
+        return "add %s %s" % (ta, tb), "ic"
+    if o == "sub":
+        if ka == "ss":                                     # ss.__sub__: ss + (-other)
+            return "add %s neg %s" % (ta, tb), "ic"
+        if ka == "nl" and kb == "ss":                     # ss.__rsub__(nl): nl + (-ss) -> (-ss).__radd__(nl)
+            return "add s %s %s" % (sys_toks(neg_leaf(systems[t["b"]["i"]])), ta), "ic"
+        return "sub %s %s" % (ta, tb), "ic"
+    if o == "fb":
+        if ka not in ("nl", "ic", "ss"):
+            raise Untokenisable("feedback of " + ka)
+        return "fb %s %s %s" % (ta, tb, tok(Fraction(t["sign"]))), "ic"
+    raise Untokenisable(o)
+
+
+def num_value(v):
+    q = Fraction(v)
+    return int(q) if q.denominator == 1 else float(q)
+
+
+def op_eval(objs, t, via):
+    o = t["o"]
+    if o == "sys":
+        return objs[t["i"]]
+    if o == "num":
+        return num_value(t["v"])
+    if o == "arr":
+        return np.array([[float(Fraction(x)) for x in r] for r in t["M"]])
+    a = op_eval(objs, t["a"], via)
+    if o == "neg":
+        return ct.negate(a) if via == "function" else -a
+    b = op_eval(objs, t["b"], via)
+    if o == "add":
+        return ct.parallel(a, b) if via == "function" else a + b
+    if o == "sub":
+        return a - b
+    if o == "mul":
+        return ct.series(b, a) if via == "function" else a * b
+    if o == "div":
+        return a / b
+    if o == "fb":
+        sg = num_value(t["sign"])
+        return ct.feedback(a, b, sg) if via == "function" else a.feedback(b, sg)
+    raise ValueError(o)
+
+
+def op_dzero(systems, t):
+    """is the direct term of the node zero by structure?"""
+    o = t["o"]
+    if o == "sys":
+        return d_zero(systems[t["i"]])
+    if o == "num":
+        return Fraction(t["v"]) == 0
+    if o == "arr":
+        return all(Fraction(x) == 0 for r in t["M"] for x in r)
+    if o in ("neg", "div", "fb"):
+        return op_dzero(systems, t["a"])
+    if o in ("add", "sub"):
+        return op_dzero(systems, t["a"]) and op_dzero(systems, t["b"])
+    return op_dzero(systems, t["a"]) or op_dzero(systems, t["b"])
+
+
+def op_cyclic(systems, t):
+    """some feedback node closes a loop through two direct terms"""
+    if t["o"] in ("sys", "num", "arr"):
+        return False
+    kids = [t[k] for k in ("a", "b") if k in t]
+    if any(op_cyclic(systems, k) for k in kids):
+        return True
+    return t["o"] == "fb" and not (op_dzero(systems, t["a"]) or op_dzero(systems, t["b"]))
+
+
+def op_nodes(t):
+    yield t
+    for k in ("a", "b"):
+        if k in t:
+            yield from op_nodes(t[k])
 
 
 # ----------------------------------------------------------------------------
@@ -288,14 +424,20 @@ def run_call(systems, call):
         with warnings.catch_warnings():
             warnings.simplefilter("ignore")
             syss = [build_sys(s) for s in systems]
-            kw = {}
-            for k in ("inplist", "outlist", "inputs", "outputs"):
-                if call.get(k) is not None:
-                    kw[k] = dec(call[k])
-            if call.get("add_unused"):
-                kw["add_unused"] = True
-            c = dec(call.get("connections"))
-            T = ct.interconnect(syss, connections=c, **kw)
+            if "op" in call:
+                T = op_eval(syss, call["op"], call.get("via", "operator"))
+                if not isinstance(T, ct.InterconnectedSystem):
+                    return {"err": "crash:type", "exc": "TypeError",
+                            "msg": "operator returned " + type(T).__name__}
+            else:
+                kw = {}
+                for k in ("inplist", "outlist", "inputs", "outputs"):
+                    if call.get(k) is not None:
+                        kw[k] = dec(call[k])
+                if call.get("add_unused"):
+                    kw["add_unused"] = True
+                c = dec(call.get("connections"))
+                T = ct.interconnect(syss, connections=c, **kw)
             nu, ny = T.connect_map.shape
             res = {"nin": int(T.ninputs), "nout": int(T.noutputs),
                    "cm": fmat(T.connect_map, nu, ny),
@@ -810,7 +952,8 @@ def gen_malformed(rng, tier):
     ns = len(systems)
     kind = rng.choice(["sig-hi", "sig-hi", "sig-neg", "sys-hi", "sys-neg", "sys-name", "sig-name",
                        "gain-twice", "gain-input", "len", "dots", "tuple4", "out-hi", "out-hi",
-                       "inp-hi", "inp-neg", "bare-unknown", "sig-hi-next"])
+                       "inp-hi", "inp-neg", "bare-unknown", "sig-hi-next", "names-list", "names-list",
+                       "slice-empty"])
     conns = call["connections"]
     b = rng.randrange(ns)
     a = rng.randrange(ns)
@@ -857,6 +1000,46 @@ def gen_malformed(rng, tier):
         call["inplist"] = list(call["inplist"]) + [(nm(b), -1)]
     elif kind == "bare-unknown":
         call["outlist"] = list(call["outlist"]) + ["nosuch"]
+    elif kind == "slice-empty":
+        # a range of an existing base name that selects nothing: beyond the last index, or empty
+        side = rng.choice(["in", "src", "inp", "out"])
+        k, knd = (b, "u") if side in ("in", "inp") else (a, "y")
+        labs = labels_of(systems[k], knd)
+        ms = [RE_SIG.match(l) for l in labs if RE_SIG.match(l)]
+        if ms:
+            base = ms[0].group(1)
+            top = 1 + max(int(m.group(2)) for m in ms if m.group(1) == base)
+            sl = rng.choice(["%s[%d:%d]" % (base, top, top + 2), "%s[%d:]" % (base, top),
+                             "%s[1:1]" % base, "%s[:0]" % base])
+            sname = systems[k]["name"]
+            ref = rng.choice(["%s.%s" % (sname, sl), (nm(k), sl), (nm(k), [sl])])
+            if side == "in":
+                conns.append([ref, (nm(a), 0)])
+            elif side == "src":
+                conns.append([(nm(b), 0), ref])
+            elif side == "inp":
+                call["inplist"] = list(call["inplist"]) + [ref]
+            else:
+                call["outlist"] = list(call["outlist"]) + [ref]
+        else:
+            conns.append([(nm(b), 0), "%s.nosuch[0:2]" % systems[a]["name"]])
+    elif kind == "names-list":
+        # a list of signal names with an unknown one at a random position
+        side = rng.choice(["in", "src", "inp", "out"])
+        k, knd = (b, "u") if side in ("in", "inp") else (a, "y")
+        labs = labels_of(systems[k], knd)
+        L = rng.choice([2, 2, 3])
+        names = [rng.choice(labs) for _ in range(L)]
+        names[rng.randrange(L)] = rng.choice(["nosuch", "nosuch[0]", labs[0] + "x"])
+        other = lambda n: [rng.randrange(n) for _ in range(L)]
+        if side == "in":
+            conns.append([(nm(b), names), (nm(a), other(nout_a))])
+        elif side == "src":
+            conns.append([(nm(b), other(nin_b)), (nm(a), names)])
+        elif side == "inp":
+            call["inplist"] = list(call["inplist"]) + [(nm(b), names)]
+        else:
+            call["outlist"] = list(call["outlist"]) + [(nm(a), names)]
     call = {k: enc(v) if k in ("connections", "inplist", "outlist") else v for k, v in call.items()}
     return {"tag": "malformed", "mal": kind, "sys": systems, "calls": [call]}
 
@@ -887,6 +1070,184 @@ def gen_edge(rng, tier):
                 call["outlist"] = case["calls"][0]["outlist"]
     call.pop("add_unused", None)
     return {"tag": "edge", "edge": kind, "sys": systems, "calls": [call]}
+
+
+def gen_idxlist(rng, tier):
+    """integer index *lists* in tuple specs, at every place a spec may stand: valid lists in any
+    order and with repetitions, and lists with one out-of-range / negative entry at a random
+    position (first, middle, last) — every entry of the list has to be checked"""
+    case = None
+    while case is None:
+        case = gen_explicit(rng, tier)
+    systems = case["sys"]
+    call = {k: dec(v) if k in ("connections", "inplist", "outlist") else v
+            for k, v in case["calls"][0].items()}
+    call.pop("add_unused", None)
+    ns = len(systems)
+    b, a = rng.randrange(ns), rng.randrange(ns)
+    nm = lambda k: rng.choice([k, systems[k]["name"]])
+    kind = rng.choice(["perm", "dup", "hi", "hi", "hi", "neg", "neg", "empty"])
+    # connections are the place where a list reaches InterconnectedSystem.__init__ as a list
+    # (interconnect() expands inplist / outlist entries into one spec per signal first)
+    site = rng.choice(["conn-in"] * 3 + ["conn-src"] * 3 + ["conn-src2"] * 2 +
+                      ["inplist", "inplist-sum", "outlist", "outlist-sum"])
+    L = rng.choice([2, 2, 3, 3, 4])
+
+    def mk(n):
+        """index list over range(n) of length L of the chosen kind"""
+        if kind == "empty":
+            return []
+        if kind == "perm" and n >= 2:
+            l = rng.sample(range(n), min(L, n))
+            if l == sorted(l):
+                l.reverse()
+            return l
+        l = [rng.randrange(n) for _ in range(L)]
+        if kind == "hi":
+            l[rng.randrange(L)] = n + rng.randrange(2)
+        elif kind == "neg":
+            l[rng.randrange(L)] = -1 - rng.randrange(2)
+        return l
+
+    def ok(n, length):
+        return [rng.randrange(n) for _ in range(length)]
+    nin_b, nout_a = dims(systems[b])[0], dims(systems[a])[1]
+    if site == "conn-in":
+        l = mk(nin_b)
+        call["connections"].append([(nm(b), l), (nm(a), ok(nout_a, len(l)))])
+    elif site == "conn-src":
+        l = mk(nout_a)
+        call["connections"].append([(nm(b), ok(nin_b, len(l))), (nm(a), l, rng.choice(GAINS))])
+    elif site == "conn-src2":
+        l = mk(nout_a)
+        a2 = rng.randrange(ns)
+        call["connections"].append([(nm(b), ok(nin_b, len(l))),
+                                    (nm(a2), ok(dims(systems[a2])[1], len(l))), (nm(a), l)])
+    elif site == "inplist":
+        call["inplist"] = list(call["inplist"]) + [(nm(b), mk(nin_b))]
+    elif site == "inplist-sum":
+        call["inplist"] = list(call["inplist"]) + [[(nm(a), 0), (nm(b), mk(nin_b))]]
+    elif site == "outlist":
+        call["outlist"] = list(call["outlist"]) + [(nm(a), mk(nout_a), rng.choice(GAINS))]
+    else:
+        call["outlist"] = list(call["outlist"]) + [[(nm(b), 0), (nm(a), mk(nout_a))]]
+    for key in ("inputs", "outputs"):
+        call.pop(key, None)
+    call = {k: enc(v) if k in ("connections", "inplist", "outlist") else v for k, v in call.items()}
+    return {"tag": "idxlist", "mal": "list-%s@%s" % (kind, site), "sys": systems, "calls": [call]}
+
+
+# ---- operator forms
+
+OPNAMES = ["F", "G", "H", "Q1", "R2", "Wn"]
+SIGNS = ["-1", "-1", "-1", "1", "1", "2", "-2", "1/2"]
+
+
+def gen_op_leaf(rng, systems, m, p, allow, proper=False):
+    kinds = [k for k in allow if k != "num" or (m == 1 and p == 1)]
+    k = rng.choice(kinds)
+    if k == "num":
+        return {"o": "num", "v": rng.choice(["2", "-1", "3", "1/2", "-2", "1", "-1/2"])}
+    if k == "arr":
+        return {"o": "arr", "M": rand_mat(rng, p, m, zero=0.2)}
+    if systems and rng.random() < 0.12:
+        # an operand that is already in use (the same object twice)
+        cand = [i for i, s in enumerate(systems) if dims(s) == (m, p) and bool(s.get("nl")) == (k == "nl")
+                and (not proper or d_zero(s))]
+        if cand:
+            return {"o": "sys", "i": rng.choice(cand)}
+    n = rng.choice([1, 1, 2]) if proper else rng.choice([0, 1, 1, 2])
+    zeroD = proper or (n > 0 and rng.random() < 0.3)
+    s = {"name": OPNAMES[len(systems) % len(OPNAMES)] + str(len(systems)),
+         "in": ["u[%d]" % i for i in range(m)], "out": ["y[%d]" % i for i in range(p)], "n": n,
+         "A": rand_mat(rng, n, n), "B": rand_mat(rng, n, m, zero=0.15),
+         "C": rand_mat(rng, p, n, zero=0.15),
+         "D": [["0"] * m for _ in range(p)] if zeroD else rand_mat(rng, p, m, zero=0.3)}
+    if k == "nl":
+        s["nl"] = True
+    systems.append(s)
+    return {"o": "sys", "i": len(systems) - 1}
+
+
+def gen_op_tree(rng, systems, m, p, depth, allow, st):
+    """expression with m inputs and p outputs (unless st["mismatch"] is spent on the way);
+    allow = kinds of leaf permitted here; an operator node is always a nonlinear I/O system"""
+    if depth == 0:
+        return gen_op_leaf(rng, systems, m, p, allow)
+    o = rng.choice(["add", "add", "sub", "sub", "mul", "mul", "mul", "neg", "fb", "fb", "div"])
+    if o == "div" and "num" not in st["consts"]:
+        o = "mul"
+    d1, d2 = rng.randint(0, depth - 1), rng.randint(0, depth - 1)
+    if rng.random() < 0.5:
+        d1 = depth - 1
+    else:
+        d2 = depth - 1
+    NL = ["nl"]
+    ANY = ["nl", "nl", "ss", "ss"] + st["consts"]
+
+    def kind_of(t):
+        if t["o"] == "sys":
+            return "nl" if systems[t["i"]].get("nl") else "ss"
+        return t["o"] if t["o"] in ("num", "arr") else "nl"
+
+    def bump(x):
+        """spend the dimension mismatch here"""
+        if st["mismatch"] and rng.random() < 0.6:
+            st["mismatch"] = False
+            return rng.choice([y for y in (1, 2, 3) if y != x])
+        return x
+    if o == "neg":
+        return {"o": "neg", "a": gen_op_tree(rng, systems, m, p, d1, NL, st)}
+    if o == "div":
+        return {"o": "div", "a": gen_op_tree(rng, systems, m, p, d1, NL, st),
+                "b": {"o": "num", "v": rng.choice(["2", "-2", "4", "1/2", "-1"])}}
+    if o in ("add", "sub"):
+        a = gen_op_tree(rng, systems, m, p, d1, ANY, st)
+        m2, p2 = (bump(m), p) if rng.random() < 0.5 else (m, bump(p))
+        b = gen_op_tree(rng, systems, m2, p2, d2, NL if kind_of(a) != "nl" else ANY, st)
+        return {"o": o, "a": a, "b": b}
+    if o == "mul":
+        q = rng.choice([1, 2, 2, 3])
+        a = gen_op_tree(rng, systems, q, p, d1, ANY, st)          # left factor: q -> p
+        b = gen_op_tree(rng, systems, m, bump(q), d2, NL if kind_of(a) != "nl" else ANY, st)
+        return {"o": "mul", "a": a, "b": b}
+    # feedback: forward path m -> p, return path p -> m
+    acyclic = rng.random() < 0.75
+    if acyclic and d1 == 0 and rng.random() < 0.5:
+        a = gen_op_leaf(rng, systems, m, p, ["nl", "nl", "ss"], proper=True)
+        acyclic = False
+    else:
+        a = gen_op_tree(rng, systems, m, p, d1, ["nl", "nl", "ss"], st)
+    m2, p2 = (bump(m), p) if rng.random() < 0.5 else (m, bump(p))
+    ballow = NL if kind_of(a) != "nl" else ANY
+    if acyclic:
+        ballow = [k for k in ballow if k in ("nl", "ss")]
+        b = gen_op_leaf(rng, systems, p2, m2, ballow, proper=True)
+    else:
+        b = gen_op_tree(rng, systems, p2, m2, d2, ballow, st)
+    return {"o": "fb", "a": a, "b": b, "sign": rng.choice(SIGNS)}
+
+
+def gen_op(rng, tier):
+    """operator forms (+ - * / unary -, feedback, and ct.parallel / series / negate / feedback)
+    with at least one nonlinear I/O system per node: non-square signatures, StateSpace / number /
+    array operands on either side, nesting, the same object twice, incompatible sizes"""
+    systems = []
+    m, p = rng.choice([1, 2, 2, 3]), rng.choice([1, 2, 2, 3])
+    if rng.random() < 0.7 and m == p:
+        p = rng.choice([x for x in (1, 2, 3) if x != m])
+    depth = rng.choice([1, 1, 1, 2, 2]) if tier == "quick" else rng.choice([1, 1, 2, 2, 3])
+    st = {"mismatch": rng.random() < 0.15,
+          "consts": rng.choice([[], [], ["arr"], ["num", "arr"]])}
+    spoiled = st["mismatch"]
+    tree = gen_op_tree(rng, systems, m, p, depth, ["nl"], st)
+    if tree["o"] == "sys" or not systems:
+        return None
+    calls = [{"op": tree, "via": "operator"}]
+    if any(t["o"] in ("add", "mul", "neg", "fb") for t in op_nodes(tree)):
+        calls.append({"op": tree, "via": "function"})
+    return {"tag": "op", "sys": systems, "calls": calls,
+            "opinfo": {"top": tree["o"], "square": m == p, "spoiled": spoiled and not st["mismatch"]}}
 
 
 OWNED = {
@@ -946,7 +1307,13 @@ class C07(Family):
         "a feedthrough cycle whose propagation happens to terminate in exact arithmetic "
         "(nilpotent loop gain) is not compared",
         "add_unused: the order of the appended signals (iteration order of a Python set) is not "
-        "compared"]
+        "compared",
+        "operator stream: which model expression a Python expression denotes follows Python's "
+        "binary-operator protocol as mirrored in op_toks (reflected method first for a StateSpace "
+        "right operand of a plain NonlinearIOSystem; StateSpace.__sub__/__rsub__/__radd__ "
+        "delegate to + and unary -); nodes whose operands are all StateSpace/number/array are "
+        "not generated (C02); a feedback node closing a loop through two direct terms is compared "
+        "only when both sides raise or both return"]
     rule = ("random sets of 1-4 subsystems (0-3 states, 1-3 inputs/outputs, integer data, direct "
             "terms zero or not), random loop-free wirings with scalar and vector connections, sums, "
             "gains, subsystem inputs as outputs; every wiring is written twice (index tuples / "
@@ -954,26 +1321,37 @@ class C07(Family):
             "base names, whole-system forms) and both must match the model; implicit connection "
             "by signal names with summing junctions vs the explicit wiring; NonlinearIOSystem "
             "wrappers; algebraic loops; add_unused; a malformed stream (one defect per call: "
-            "out-of-range index, unknown name, gain twice, gain on an input, length mismatch, ...)")
+            "out-of-range index, unknown name, gain twice, gain on an input, length mismatch, "
+            "list of names with an unknown one at a random position, empty range, ...); an "
+            "index-list stream (integer index lists in connections / inplist / outlist, also inside "
+            "lists that sum: permuted, repeated, empty, one entry out of range or negative at a "
+            "random position); an operator stream (trees of + - * / unary - .feedback and "
+            "ct.parallel/series/negate/feedback over NonlinearIOSystem, StateSpace, number and array "
+            "operands of non-square sizes, nested 1-3 deep, incompatible sizes in 15%; written with "
+            "operators and with the bdalg functions)")
 
     def corpus(self):
         return [OWNED]
 
     def generate(self, rng, tier):
-        n = 420 if tier == "quick" else 3000
+        n = 560 if tier == "quick" else 3800
         out = []
         while len(out) < n:
             r = rng.random()
-            if r < 0.42:
+            if r < 0.32:
                 c = gen_explicit(rng, tier)
-            elif r < 0.57:
+            elif r < 0.43:
                 c = gen_implicit(rng, tier)
-            elif r < 0.65:
+            elif r < 0.49:
                 c = gen_explicit(rng, tier, nl=True)
-            elif r < 0.72:
+            elif r < 0.55:
                 c = gen_explicit(rng, tier, loops=True)
-            elif r < 0.77:
+            elif r < 0.59:
                 c = gen_edge(rng, tier)
+            elif r < 0.73:
+                c = gen_idxlist(rng, tier)
+            elif r < 0.86:
+                c = gen_op(rng, tier)
             else:
                 c = gen_malformed(rng, tier)
             if c is None:
@@ -1001,18 +1379,27 @@ class C07(Family):
             feat["mal"] = case["mal"]
         if case.get("edge"):
             feat["edge"] = case["edge"]
+        if case.get("tag") == "op":
+            feat["call"] = case["calls"][k].get("via")
+            feat["top"] = case["calls"][k]["op"]["o"]
         if "driver" in mo:
             return Verdict(DIFFERS, "driver: " + mo["driver"][:200], dict(feat, kind="driver"))
         if "err" in mo and "err" in im:
             return None
         if "err" in mo:
             feat.update(kind="no-raise", model_err=mo["err"])
-            st = VIOLATES if mo["err"] in ("indexRange", "unknownName", "illPosed") else DIFFERS
+            # operands of incompatible sizes: there are no signal-flow equations to realise
+            st = VIOLATES if mo["err"] in ("indexRange", "unknownName", "illPosed") \
+                or (case.get("tag") == "op" and mo["err"] == "shape") else DIFFERS
             return Verdict(st, "model raises %s, implementation returns a system (cm=%s im=%s om=%s)"
                            % (mo["err"], im["cm"], im["im"], im["om"]), feat)
         if "err" in im:
-            if im["err"] == "illPosed" and cyclic_feedthrough(case["sys"], mo):
+            if im["err"] == "illPosed" and case.get("tag") != "op" \
+                    and cyclic_feedthrough(case["sys"], mo):
                 return None     # nilpotent cycle: exact propagation stops, floating point need not
+            if im["err"] == "illPosed" and case.get("tag") == "op" \
+                    and op_cyclic(case["sys"], case["calls"][k]["op"]):
+                return None     # idem, for a feedback node through two direct terms
             feat.update(kind="raises-on-valid", exc=im["exc"], msg=im["msg"])
             return Verdict(VIOLATES, "valid wiring rejected: %s: %s" % (im["exc"], im["msg"]), feat)
         for key in ("nin", "nout"):
@@ -1060,6 +1447,12 @@ class C07(Family):
             st["mal"] = case["mal"]
             i = impl[-1]
             st["errclass_match"] = ("err" in i and "err" in m and i["err"] == m["err"])
+        if case.get("tag") == "op":
+            st["op"] = "%s/%s%s" % (case["opinfo"]["top"],
+                                    "square" if case["opinfo"]["square"] else "nonsquare",
+                                    "/spoiled" if case["opinfo"]["spoiled"] else "")
+            st["op_nodes"] = sum(1 for t in op_nodes(case["calls"][0]["op"])
+                                 if t["o"] not in ("sys", "num", "arr"))
         if "lin" in m:
             st["states"] = min(m["lin"]["n"], 6)
         if "err" not in m:
@@ -1074,6 +1467,16 @@ class C07(Family):
                 c = dict(case)
                 c["calls"] = [calls[k]]
                 out.append(c)
+        if case.get("tag") == "op":
+            # a sub-expression that is itself an operator node
+            for ci, call in enumerate(calls):
+                for sub in list(op_nodes(call["op"]))[1:]:
+                    if sub["o"] in ("sys", "num", "arr"):
+                        continue
+                    c = dict(case)
+                    c["calls"] = [dict(call, op=sub)]
+                    c["opinfo"] = dict(case["opinfo"], top=sub["o"])
+                    out.append(c)
         for ci, call in enumerate(calls):
             for key in ("connections", "inplist", "outlist"):
                 v = call.get(key)
